@@ -240,3 +240,12 @@ def run(ctx):
         elif a["kind"] in ("assign", "assign_sub", "borrow_mut", "construct"):
             r5.violation("%s %s Toi.value" % (caller, a["kind"]), "Toi value written outside the allocator", loc(a["sp"]))
     r5.floor(5, "TOI provenance facts")
+
+    # ---- R6 TOI field on the wire -------------------------------------------------------------------------
+    r6 = ctx.rule("C15.R6", "the allocated TOI is the TOI carried in the packets: in push_lct_header the O and H flags sit at their RFC 5651 "
+                            "positions and the TOI (and the TSI / CCI before it) is written with exactly the 4*O + 2*H (4*S + 2*H, 4*(C+1)) "
+                            "bytes the flags announce - a mismatch displaces or truncates the TOI the receiver reads (same analysis as C06.R7)",
+                  "E5 bit provenance + affine lengths")
+    from . import c06
+    c06.lct_first_word_rule(ctx, r6)
+    r6.floor(10, "first-word / length facts")
